@@ -5,6 +5,7 @@ import (
 	"strings"
 	"sync"
 	"sync/atomic"
+	"time"
 	"unsafe"
 
 	sse "github.com/tmaxmax/go-sse"
@@ -44,7 +45,37 @@ func Token(m *sse.Message) string {
 			return l[len("data: "):]
 		}
 	}
+	// a message without data (a heartbeat / checkpoint): the token is its first comment
+	for _, l := range strings.Split(s, "\n") {
+		if strings.HasPrefix(l, ": ") {
+			return l[len(": "):]
+		}
+	}
 	return ""
+}
+
+// ShapeMsg gives a message carrying the token one of several shapes, chosen by the token itself:
+// data only (most), a comment before the data, a type, a retry value, or a comment and nothing else.
+func ShapeMsg(m *sse.Message, token string) {
+	h := 0
+	for _, c := range []byte(token) {
+		h = h*31 + int(c)
+	}
+	switch h % 7 {
+	case 0:
+		m.AppendComment(token) // comment-only
+	case 1:
+		m.AppendComment("note")
+		m.AppendData(token)
+	case 2:
+		m.AppendData(token)
+		m.Type = sse.Type("ty")
+	case 3:
+		m.AppendData(token)
+		m.Retry = 1500 * time.Millisecond
+	default:
+		m.AppendData(token)
+	}
 }
 
 // RecClient is a recording MessageWriter with scripted failures. It keeps no
